@@ -299,9 +299,8 @@ func runC20(cx *CheckCtx) {
 			okG := pa.holdsAt(put.In, pa.litW(pub))
 			okM := false
 			for _, f := range pa.unitFactsRaw(put.In) {
-				if f.kind == KB && f.pos && f.A.Op == "ret" && f.A.Name == fq(containerIsStorageNodeFn(cx)) {
-					in := tb.insts[f.A.Inst]
-					if cs := pa.siteIdx[siteKey{in.ctx, in.ins}]; cs != nil && len(cs.Args) == 2 && cs.Args[1] == pub {
+				if f.kind == KB && f.pos {
+					if cs := pa.resultSite(f.A, fq(containerIsStorageNodeFn(cx))); cs != nil && len(cs.Args) == 2 && cs.Args[1] == pub {
 						okM = true
 					}
 				}
